@@ -181,11 +181,13 @@ func schedules(r *rng.R, n, upto int, all bool, nrand int) [][]int {
 }
 
 type rcaseJSON struct {
-	Kind string `json:"kind"`
-	In   string `json:"in"` // hex
-	Cuts []int  `json:"cuts"`
-	Note string `json:"note,omitempty"`
-	Err  string `json:"err,omitempty"`
+	Kind    string   `json:"kind"`
+	In      string   `json:"in"` // hex
+	Cuts    []int    `json:"cuts"`
+	Note    string   `json:"note,omitempty"`
+	Err     string   `json:"err,omitempty"`
+	History []string `json:"history,omitempty"` // reader-history: the inputs (hex) read one after the other; In is History[Index]
+	Index   int      `json:"index,omitempty"`
 }
 
 type collector struct {
@@ -346,14 +348,19 @@ func genV1(c *collector, thorough bool) {
 		} else {
 			// every pairing of the good addresses of both families; every address (good, cross-family, bad) in
 			// either position next to the shortest and the longest good partner
-			for _, a1 := range append(append([]string{}, ip4Good...), ip6Good...) {
-				for _, a2 := range append(append([]string{}, ip4Good...), ip6Good...) {
-					c.add([]byte(v1line(fam, a1, a2, "2", "3")+pay()), "v1 addresses", false, 1)
+			for _, gp := range [][]string{ip4Good, ip6Good} {
+				for _, a1 := range gp {
+					for _, a2 := range gp {
+						c.add([]byte(v1line(fam, a1, a2, "2", "3")+pay()), "v1 addresses", false, 1)
+					}
 				}
 			}
-			for _, a := range addrs {
+			for ai, a := range addrs {
 				for _, g := range []string{pool[0], pool[len(pool)-1]} {
-					for _, pp := range portPairs {
+					for pi, pp := range portPairs {
+						if pi > 0 && ai >= len(ip4Good)+len(ip6Good) {
+							continue // malformed addresses: one port pair is enough
+						}
 						c.add([]byte(v1line(fam, a, g, pp[0], pp[1])+pay()), "v1 addresses", false, 1)
 						c.add([]byte(v1line(fam, g, a, pp[0], pp[1])+pay()), "v1 addresses", false, 1)
 					}
@@ -365,9 +372,17 @@ func genV1(c *collector, thorough bool) {
 		for ai, ap := range addrPairs {
 			for i1, p1 := range portPool {
 				for i2, p2 := range portPool {
-					// quick: the full product for the shortest addresses, each shape in either position for the others
-					if !thorough && ai > 0 && i1 != 3 && i2 != 3 {
-						continue
+					// quick: for the shortest addresses every shape in either position next to "80" and next to itself,
+					// and the full product of the first 12 shapes; for the other address pairs next to "80" only.
+					// thorough: the full product for all four address pairs.
+					if !thorough {
+						near := i1 == 3 || i2 == 3
+						if ai == 0 && !(near || i1 == i2 || (i1 < 12 && i2 < 12)) {
+							continue
+						}
+						if ai > 0 && !near {
+							continue
+						}
 					}
 					c.add([]byte(v1line(fam, ap[0], ap[1], p1, p2)+pay()), "v1 ports", false, 1)
 				}
@@ -377,7 +392,7 @@ func genV1(c *collector, thorough bool) {
 			// the maximal line that fits into 107 bytes
 			for _, ap := range [][2]string{{ip6Good[7], ip6Good[7]}, {"::", "::"}, {"::1", "::"}, {"::", "::1"}, {"::1", "::1"}} {
 				for _, pp := range [][2]string{{"0", "0"}, {"65535", "65535"}, {"2", "3"}, {"10", "3"}} {
-					for _, p := range payloads {
+					for _, p := range payloadSet(thorough) {
 						c.add([]byte(v1line(fam, ap[0], ap[1], pp[0], pp[1])+p), "v1 tcp6 length boundaries", true, 3)
 					}
 				}
@@ -387,9 +402,12 @@ func genV1(c *collector, thorough bool) {
 	// shapes of the line itself
 	good := "PROXY TCP4 1.1.1.1 2.2.2.2 1000 2000"
 	good6 := "PROXY TCP6 ::1 ::2 1000 2000"
-	for _, g := range []string{good, good6, "PROXY TCP4 0.0.0.0 0.0.0.0 0 0", "PROXY TCP6 :: :: 0 0", "PROXY TCP6 ::1 :: 0 0", "PROXY TCP6 ::1 ::1 2 3",
-		"PROXY TCP6 ::1 ::1 20 3", "PROXY TCP6 ::1 ::1 20 30"} {
-		for _, p := range payloads {
+	lines := []string{good, good6, "PROXY TCP4 0.0.0.0 0.0.0.0 0 0", "PROXY TCP6 :: :: 0 0", "PROXY TCP6 ::1 ::1 2 3"}
+	if thorough {
+		lines = append(lines, "PROXY TCP6 ::1 :: 0 0", "PROXY TCP6 ::1 ::1 20 3", "PROXY TCP6 ::1 ::1 20 30")
+	}
+	for _, g := range lines {
+		for _, p := range payloadSet(thorough) {
 			c.add([]byte(g+"\r\n"+p), "v1 well-formed", true, 4)
 			c.add([]byte(g+" \r\n"+p), "v1 trailing space", false, 1)
 			c.add([]byte(g+" extra\r\n"+p), "v1 extra token", false, 1)
@@ -431,12 +449,21 @@ func genV1(c *collector, thorough bool) {
 	}
 }
 
-func genV2Full(c *collector) {
+// payloadSet: what follows the header.  quick uses the six shapes that matter for the hand-over (a request, nothing, one
+// byte, CRLF, bare LF, another header); thorough all twelve.
+func payloadSet(thorough bool) []string {
+	if thorough {
+		return payloads
+	}
+	return []string{payloads[0], payloads[1], payloads[2], payloads[3], payloads[4], payloads[7]}
+}
+
+func genV2Full(c *collector, thorough bool) {
 	// hand-written full cases with TLVs and special bodies
 	body4 := []byte{1, 2, 3, 4, 5, 6, 7, 8, 0x1f, 0x90, 0x00, 0x50}
 	body6 := append(append(append([]byte{}, net.ParseIP("2001:db8::1")...), net.ParseIP("::ffff:9.8.7.6")...), 0xff, 0xff, 0, 0)
 	tlv := []byte{0x01, 0x00, 0x02, 'h', '2', 0x04, 0x00, 0x00}
-	for _, p := range payloads {
+	for _, p := range payloadSet(thorough) {
 		for _, vc := range []byte{0x20, 0x21} {
 			for _, fam := range []byte{0x00, 0x11, 0x12, 0x21, 0x22, 0x31, 0x32} {
 				for _, body := range [][]byte{nil, body4, append(append([]byte{}, body4...), tlv...), body6, append(append([]byte{}, body6...), tlv...), body4[:11], body6[:35]} {
@@ -634,7 +661,7 @@ func genTokens(r *rng.R, thorough bool) []string {
 	}
 	// every string of length <= L over a small alphabet that exercises both parsers
 	alpha := []string{"0", "1", "9", "a", "g", ":", ".", "-", "+"}
-	L := 4
+	L := 3
 	if thorough {
 		L = 5
 	}
@@ -653,7 +680,7 @@ func genTokens(r *rng.R, thorough bool) []string {
 	}
 	// grammar-generated IPv6 / IPv4 texts and near misses
 	groups := []string{"0", "1", "f", "00", "0000", "ffff", "1234", "abcd", "ABCD", "10000", "fffff", "g", ""}
-	n := 1500
+	n := 500
 	if thorough {
 		n = 8000
 	}
@@ -744,6 +771,8 @@ type meta struct {
 	V2Exhaustive   string         `json:"v2_sweep_domain"`
 	TokenCases     int            `json:"token_cases"`
 	TokenIPs       int            `json:"token_ips_accepted"`
+	TokenExhLen    int            `json:"token_exhaustive_len"`
+	HistoryCases   int            `json:"history_cases"`
 	ConnCases      int            `json:"conn_cases"`
 	ConnTCP        int            `json:"conn_cases_tcp"`
 	ConnPipe       int            `json:"conn_cases_pipe"`
@@ -787,20 +816,28 @@ func main() {
 		writeMeta(*out, m)
 		return
 	}
+	// the end-to-end part (child process, timeouts) runs concurrently with the generators below
+	var me2e meta
+	e2eDone := make(chan struct{})
+	go func() {
+		defer close(e2eDone)
+		runE2E(*out, rng.New(*seed^0x5bd1e995), thorough, &me2e)
+	}()
 	// corpus of minimised earlier failures: always first
 	for _, s := range corpus() {
 		c.add(s, "corpus", true, 4)
 	}
 	genV1(c, thorough)
-	genV2Full(c)
-	nGarbage := 2500
+	genV2Full(c, thorough)
+	nGarbage := 900
 	if thorough {
 		nGarbage = 20000
 	}
 	genGarbage(c, nGarbage)
+	readerHistory(c, &m, thorough)
 	m.ReaderCases, m.ReaderAccepted, m.ReaderRejected = len(c.coq), c.accepted, c.rejected
 	m.Schedules, m.Deviants, m.ErrHist, m.LenHist = c.nSched, c.nDeviant, c.errHist, c.lenHist
-	m.Kinds = append(m.Kinds, writeKind(*out, "rcases", "rcase", "rcase_model_ok", "rcase_verdict", c.coq, c.js, 400,
+	m.Kinds = append(m.Kinds, writeKind(*out, "rcases", "rcase", "rcase_model_ok", "rcase_verdict", c.coq, c.js, 350,
 		""))
 
 	// compact v2 sweep
@@ -859,28 +896,40 @@ func main() {
 		}
 		m.V2Exhaustive = "all 256 version/command bytes x all 256 family bytes x lengths {0,1,11,12,13,35,36,37,216,2048,2049} (exhaustive)"
 	} else {
+		// quick: every command of version 2 x every family byte at the length that is valid for IPv4 and IPv6 (36),
+		// every version/command byte x the 24 assigned-or-adjacent family bytes, and commands 0..2 x every family byte x
+		// the eleven lengths; the full 256 x 256 x 11 product is the thorough tier
+		isKeyFam := func(fam int) bool { return fam < 4 || (fam&0xF0 <= 0x30 && fam&0x0F <= 2) || fam == 0x13 || fam == 0x23 || fam == 0x41 || fam == 0xff }
+		nLight := 0
 		for vc := 0; vc < 256; vc++ {
 			for fam := 0; fam < 256; fam++ {
-				addV(vc, fam, 36, (vc+fam)%200)
+				if vc&0xF0 == 0x20 || isKeyFam(fam) {
+					addV(vc, fam, 36, (vc+fam)%200)
+					nLight++
+				}
 			}
 		}
 		for vc := 0x20; vc < 0x30; vc++ {
 			for fam := 0; fam < 256; fam++ {
-				if vc > 0x22 && !(fam < 4 || (fam&0xF0 <= 0x30 && fam&0x0F <= 2) || fam == 0xff) {
+				if vc > 0x22 && !isKeyFam(fam) {
 					continue
 				}
 				for _, l := range lengths {
-					if l != 36 {
+					if l != 36 && (vc <= 0x21 || isKeyFam(fam) || l < 2048) {
 						addV(vc, fam, l, (vc+fam+l)%200)
 					}
 				}
 			}
 		}
-		interleave(256 * 256)
-		m.V2Exhaustive = "all 256 version/command bytes x all 256 family bytes at length 36 (exhaustive) + version 2 commands 0..2 x all 256 families x 11 lengths + commands 3..15 x 20 families x 11 lengths"
+		interleave(nLight)
+		m.V2Exhaustive = "version 2 x all 16 commands x all 256 family bytes at length 36 (exhaustive) + all 256 version/command bytes x 21 assigned-or-adjacent family bytes + commands 0..2 x all 256 families x lengths {0,1,11,12,13,35,37,216} (2048, 2049 for commands 0, 1 and the key families) + commands 3..15 x key families x 11 lengths"
 	}
 	m.V2Cases = len(vcoq)
-	m.Kinds = append(m.Kinds, writeKind(*out, "vcases", "vcase", "vcase_model_ok", "vcase_verdict", vcoq, vjs, 4000, ""))
+	vShard := 4000
+	if !thorough {
+		vShard = 2500
+	}
+	m.Kinds = append(m.Kinds, writeKind(*out, "vcases", "vcase", "vcase_model_ok", "vcase_verdict", vcoq, vjs, vShard, ""))
 
 	// token level
 	var tcoq []string
@@ -897,11 +946,17 @@ func main() {
 		tjs = append(tjs, map[string]string{"kind": "token", "in": hex.EncodeToString([]byte(tok))})
 	}
 	m.TokenCases = len(tcoq)
-	m.Kinds = append(m.Kinds, writeKind(*out, "tcases", "tcase", "tcase_model_ok", "tcase_verdict", tcoq, tjs, 2500, ""))
+	m.TokenExhLen = 3
+	if thorough {
+		m.TokenExhLen = 5
+	}
+	m.Kinds = append(m.Kinds, writeKind(*out, "tcases", "tcase", "tcase_model_ok", "tcase_verdict", tcoq, tjs, 1500, ""))
 
 	// connection level and the full proxy
 	runConnCases(*out, r, thorough, &m)
-	runE2E(*out, r, thorough, &m)
+	<-e2eDone
+	m.E2E = me2e.E2E
+	m.Kinds = append(m.Kinds, me2e.Kinds...)
 
 	if len(c.js) > 0 {
 		m.Samples = append(m.Samples, c.js[len(c.js)-1], c.js[len(c.js)/2], vjs[len(vjs)/3])
@@ -924,4 +979,68 @@ func corpus() [][]byte {
 		[]byte("PROXY TCP4X1.1.1.1 2.2.2.2 1 2\r\nGET"),
 		[]byte("PROXY TCP6 :: :: 0 0 \r\nGET / HTTP/1.1\r\nHost: x\r\n\r\n"),
 	}
+}
+
+// ---------------------------------------------------------------------------------------------- histories
+
+// historyInputs: headers of every kind with pairwise different addresses and TLVs, each followed by a payload.
+func historyInputs(n int) [][]byte {
+	var ins [][]byte
+	for i := 0; i < n; i++ {
+		a := byte(i + 1)
+		b6 := append(append(append([]byte{}, net.ParseIP(fmt.Sprintf("2001:db8:%x::%x", i+1, i+7))...), net.ParseIP(fmt.Sprintf("2001:db8:ff:%x::1", i+3))...),
+			byte(0x10+i), a, byte(0x20+i), a)
+		tlv := []byte{0x01, 0x00, 0x02, 'h', a, 0x04, 0x00, 0x01, a}
+		pay := []byte(fmt.Sprintf("GET /%d HTTP/1.1\r\n\r\n", i))
+		var h []byte
+		switch i % 6 {
+		case 0, 1, 2:
+			h = v2header(0x21, 0x21, len(b6)+len(tlv), append(append([]byte{}, b6...), tlv...))
+		case 3:
+			h = v2header(0x21, 0x22, len(b6), b6)
+		case 4:
+			h = v2header(0x21, 0x11, 12+len(tlv), append([]byte{10, 0, a, 1, 10, 1, a, 2, 0x1f, a, 0x00, a}, tlv...))
+		case 5:
+			h = []byte(fmt.Sprintf("PROXY TCP6 2001:db8::%x 2001:db8::1:%x %d %d\r\n", i+1, i+2, 1000+i, 2000+i))
+		}
+		ins = append(ins, append(h, pay...))
+	}
+	return ins
+}
+
+// readerHistory reads many headers one after the other (same goroutine), keeps the returned *Header values and
+// renders them only at the end: what an accepted connection reports must not change when later headers are read.
+func readerHistory(c *collector, m *meta, thorough bool) {
+	n := 24
+	if thorough {
+		n = 96
+	}
+	ins := historyInputs(n)
+	for _, o := range readHistory(ins) {
+		c.emit(ins[o.idx], nil, o.obs, fmt.Sprintf("history: header %d of %d re-examined after the later ones were read", o.idx, len(ins)))
+		c.js[len(c.js)-1] = withHistory(c.js[len(c.js)-1].(rcaseJSON), ins, o.idx)
+		m.HistoryCases++
+	}
+}
+
+type histObs struct {
+	idx int
+	obs obs
+}
+
+func readHistory(ins [][]byte) []histObs {
+	out := make([]histObs, len(ins))
+	for i, in := range ins {
+		out[i] = histObs{i, readWith(in, nil)} // keeps the *Header, rendered later by coqRcase
+	}
+	return out
+}
+
+func withHistory(j rcaseJSON, ins [][]byte, idx int) rcaseJSON {
+	j.Kind = "reader-history"
+	j.Index = idx
+	for _, in := range ins {
+		j.History = append(j.History, hex.EncodeToString(in))
+	}
+	return j
 }
